@@ -190,7 +190,7 @@ AProbe ==
 (* group((..)), group([..]) -- children run left to right, the first       *)
 (* failure fails the whole, nothing is rewound here.                       *)
 
-SeqOps == {"then", "ithen", "theni", "delim", "padded", "group", "grouparr"}
+SeqOps == {"then", "ithen", "theni", "delim", "padded", "group", "grouparr", "lazy"}
 
 (* children with their "forced Check mode" flag *)
 Kids(g) ==
@@ -201,11 +201,12 @@ Kids(g) ==
     [] o = "delim" -> << <<g[3], TRUE>>, <<g[2], FALSE>>, <<g[4], TRUE>> >>
     [] o = "padded" -> << <<g[3], TRUE>>, <<g[2], FALSE>>, <<g[3], TRUE>> >>
     [] o \in {"group", "grouparr"} -> [i \in DOMAIN g[2] |-> <<g[2][i], FALSE>>]
+    [] o = "lazy" -> << <<g[2], FALSE>>, <<AnyRun, TRUE>> >>         \* a.then_ignore(any().repeated())
 Combine(g, vs) ==
   LET o == Op(g) IN
   CASE o = "then" -> VP(vs[1], vs[2])
     [] o = "ithen" -> vs[2]
-    [] o = "theni" -> vs[1]
+    [] o \in {"theni", "lazy"} -> vs[1]
     [] o \in {"delim", "padded"} -> vs[2]
     [] o = "group" -> VG(vs)
     [] o = "grouparr" -> VA(vs)
@@ -338,7 +339,7 @@ AMapRet ==
   /\ LET f == Top
          o == Op(f.g)
          sp == SpanOf(f.cp.cur, cur)
-         v == CASE o = "map" -> VM(f.g[3], ret.val)
+         v == CASE o = "map" -> MapFn(f.g[3], ret.val)
                 [] o = "to" -> VK(f.g[3])
                 [] o = "ignored" -> VU
                 [] o = "boxed" -> ret.val
@@ -600,6 +601,224 @@ AFoldrBRet ==
      IF ~ret.ok THEN Keep(ErrRet)
      ELSE Keep(OkRet(MV(f.mode, FoldR(f.g[4], f.acc, ret.val))))
 
+
+---------------------------------------------------------------------------
+(* Error recovery (src/recovery.rs).  RecoverWith::go: save; A; on failure  *)
+(* rewind and run the strategy; if that fails too rewind again and fail.    *)
+(*   pc 1: A          pc 2: via_parser fallback                             *)
+(*   pc 3/4: skip_until: until attempt / skip step                          *)
+(*   pc 5/6/7: skip_then_retry_until: until attempt / skip step / retry     *)
+(* Every strategy starts with `take_alt().unwrap()`: "can't fail" -- if no  *)
+(* pending error exists the real code panics (Panic).                       *)
+
+(* a "can't fail" unwrap hit: the real code panics; the parse ends here *)
+Panic ==
+  /\ result' = [ok |-> FALSE, out |-> VU, errs |-> <<>>, panic |-> TRUE, insp |-> insp]
+  /\ st' = [st EXCEPT !.done = TRUE, !.panicked = TRUE]
+  /\ UNCHANGED <<cid, stack, ret, cur, alt, sec, insp, memo, kf, obs>>
+
+Emit(sq, at, er) == Append(sq, [pos |-> at, err |-> er])
+
+ARecoverStart ==
+  /\ Entering({"recover"})
+  /\ LET f == Top IN Call([f EXCEPT !.pc = 1], 1, f.g[2], f.mode, cur, sec, insp, alt)
+
+ARecoverARet ==
+  /\ Resuming({"recover"}, 1)
+  /\ LET f == Top
+         s == f.g[3]
+         rsec == RwSec(f.cp)
+         cpn == Cp(f.cp.cur, Len(rsec), f.cp.insp)
+         f2 == [f EXCEPT !.salt = alt, !.cp2 = cpn]
+     IN IF ret.ok THEN Keep(OkRet(ret.val))
+        ELSE IF ~alt.some THEN Panic
+        ELSE CASE Op(s) = "via" ->
+                    Call([f2 EXCEPT !.pc = 2], 2, s[2], f.mode, f.cp.cur, rsec, f.cp.insp, NoAlt)
+               [] Op(s) = "skipuntil" ->
+                    Call([f2 EXCEPT !.pc = 3], 3, s[3], "C", f.cp.cur, rsec, f.cp.insp, NoAlt)
+               [] Op(s) = "retry" ->
+                    Call([f2 EXCEPT !.pc = 5], 3, s[3], "C", f.cp.cur, rsec, f.cp.insp, NoAlt)
+
+(* the strategy failed: `inp.errors.alt = Some(alt)`, then RecoverWith rewinds to `before` *)
+RecoverGiveUp(f) == Return(ErrRet, f.cp.cur, RwSec(f.cp), f.cp.insp, f.salt)
+
+ARecoverViaRet ==
+  /\ Resuming({"recover"}, 2)
+  /\ LET f == Top IN
+     IF ret.ok THEN Return(OkRet(ret.val), cur, Emit(sec, cur, f.salt.err), insp, alt)
+     ELSE RecoverGiveUp(f)
+
+ASkipUntilUntilRet ==
+  /\ Resuming({"recover"}, 3)
+  /\ LET f == Top
+         s == f.g[3]
+     IN IF ret.ok
+        THEN Return(OkRet(MV(f.mode, VE("su"))), cur, Emit(sec, cur, f.salt.err), insp, alt)
+        ELSE Call([f EXCEPT !.pc = 4], 2, s[2], "C", f.cp2.cur, RwSec(f.cp2), f.cp2.insp, alt)
+
+ASkipUntilSkipRet ==
+  /\ Resuming({"recover"}, 4)
+  /\ LET f == Top
+         s == f.g[3]
+     IN IF ret.ok
+        THEN Call([f EXCEPT !.pc = 3, !.cp2 = Cp(cur, Len(sec), insp)], 3, s[3], "C", cur, sec, insp, alt)
+        ELSE RecoverGiveUp(f)
+
+ARetryUntilRet ==
+  /\ Resuming({"recover"}, 5)
+  /\ LET f == Top
+         s == f.g[3]
+     IN IF ret.ok THEN RecoverGiveUp(f)
+        ELSE Call([f EXCEPT !.pc = 6], 2, s[2], "C", f.cp2.cur, RwSec(f.cp2), f.cp2.insp, alt)
+
+ARetrySkipRet ==
+  /\ Resuming({"recover"}, 6)
+  /\ LET f == Top IN
+     IF ~ret.ok THEN RecoverGiveUp(f)
+     ELSE Call([f EXCEPT !.pc = 7, !.cp2 = Cp(cur, Len(sec), insp)], 1, f.g[2], f.mode, cur, sec, insp, alt)
+
+ARetryRetryRet ==
+  /\ Resuming({"recover"}, 7)
+  /\ LET f == Top
+         s == f.g[3]
+     IN IF ret.ok /\ Len(sec) = f.cp2.nsec           \* accept only a retry that emitted nothing
+        THEN Return(OkRet(ret.val), cur, Emit(sec, cur, f.salt.err), insp, alt)
+        ELSE \* `inp.errors.alt.take(); inp.rewind(before)` and go round the loop
+             Call([f EXCEPT !.pc = 5], 3, s[3], "C", f.cp2.cur, RwSec(f.cp2), f.cp2.insp, NoAlt)
+
+---------------------------------------------------------------------------
+(* labelled / as_context (src/label.rs) and map_err (MapErrWithState::go)  *)
+
+ALabelStart ==
+  /\ Entering({"label", "maperr"})
+  /\ LET f == Top IN Call([f EXCEPT !.pc = 1, !.salt = alt], 1, f.g[2], f.mode, cur, sec, insp, NoAlt)
+
+ALabelRet ==
+  /\ Resuming({"label"}, 1)
+  /\ LET f == Top
+         l == "l:" \o f.g[3]
+         isctx == f.g[4]
+         before == f.cp.cur
+         na == IF ~alt.some THEN alt
+               ELSE IF alt.pos = before THEN [alt EXCEPT !.err = LabelWith(Ety, @, l)]
+               ELSE IF isctx /\ alt.pos > before
+                    THEN LET sp == SpanOf(before, alt.pos) IN [alt EXCEPT !.err = InContext(Ety, @, l, sp[1], sp[2])]
+               ELSE alt
+         alt2 == IF na.some THEN AddAltErr(Ety, f.salt, na.pos, na.err) ELSE f.salt
+         sec2 == IF isctx
+                 THEN [i \in DOMAIN sec |->
+                         IF i > f.cp.nsec
+                         THEN LET sp == SpanOf(before, sec[i].pos) IN [sec[i] EXCEPT !.err = InContext(Ety, @, l, sp[1], sp[2])]
+                         ELSE sec[i]]
+                 ELSE sec
+     IN Return([ret EXCEPT !.fr = NoFrame], cur, sec2, insp, alt2)
+
+(* MapErrWithState::go takes the old alt away and puts it back only when   *)
+(* its parser FAILED; on success the pending error of earlier alternatives *)
+(* is silently dropped: deviation site "maperr_drop" (C17, C06).           *)
+AMapErrRet ==
+  /\ Resuming({"maperr"}, 1)
+  /\ LET f == Top IN
+     IF ret.ok
+     THEN KfSplit("maperr_drop",
+                  ReturnK(OkRet(ret.val), cur, sec, insp,
+                          IF alt.some THEN AddAltErr(Ety, f.salt, alt.pos, alt.err) ELSE f.salt),
+                  ReturnK(OkRet(ret.val), cur, sec, insp, alt))
+     ELSE IF ~alt.some THEN Panic
+     ELSE Return(ErrRet, cur, sec, insp, AddAltErr(Ety, f.salt, alt.pos, MapErrFn(Ety, f.g[3], alt.err)))
+
+---------------------------------------------------------------------------
+(* memoized (Memoized::go).  The table is keyed (position, identity of the *)
+(* memoized node); an entry is either "in progress" (left-recursion cut)   *)
+(* or the pending error left by the failure.                               *)
+
+MemoHas(k) == k \in DOMAIN memo
+AMemoStart ==
+  /\ Entering({"memo"})
+  /\ LET f == Top
+         k == <<cur, f.path>>
+         sp == SpanOf(cur, cur)
+     IN IF MemoHas(k)
+        THEN /\ IF memo[k].some
+                THEN RetX(ErrRet, cur, sec, insp, AddAltErr(Ety, alt, memo[k].pos, memo[k].err))
+                ELSE RetX(ErrRet, cur, sec, insp, AddAlt(Ety, alt, cur, {}, "", sp[1], sp[2]))
+             /\ UNCHANGED <<cid, memo, kf, obs, result>>
+        ELSE /\ CallX([f EXCEPT !.pc = 1], f.g[2], f.mode, f.ctx, f.env, Append(f.path, 1), "go", 0, cur, sec, insp, alt)
+             /\ memo' = (k :> NoAlt) @@ memo
+             /\ UNCHANGED <<cid, kf, obs, result>>
+
+AMemoRet ==
+  /\ Resuming({"memo"}, 1)
+  /\ LET f == Top
+         k == <<f.cp.cur, f.path>>
+     IN /\ RetX([ret EXCEPT !.fr = NoFrame], cur, sec, insp, alt)
+        /\ memo' = IF ret.ok THEN [x \in DOMAIN memo \ {k} |-> memo[x]] ELSE [memo EXCEPT ![k] = alt]
+        /\ UNCHANGED <<cid, kf, obs, result>>
+
+---------------------------------------------------------------------------
+(* recursive(..): `rec` binds its body, `ref k` calls the k-th enclosing   *)
+(* body (1 = innermost).  Environment entries remember the body's static   *)
+(* path so that identities (memo keys) do not depend on the call depth.    *)
+
+ARecStart ==
+  /\ Entering({"rec"})
+  /\ LET f == Top
+         bp == Append(f.path, 1)
+     IN /\ CallX([f EXCEPT !.pc = 1], f.g[2], f.mode, f.ctx, <<[body |-> f.g[2], path |-> bp]>> \o f.env, bp, "go", 0,
+                 cur, sec, insp, alt)
+        /\ UNCHANGED <<cid, memo, kf, obs, result>>
+
+ARefStart ==
+  /\ Entering({"ref"})
+  /\ LET f == Top
+         k == f.g[2]
+     IN /\ CallX([f EXCEPT !.pc = 1], f.env[k].body, f.mode, f.ctx, SubSeq(f.env, k, Len(f.env)), f.env[k].path, "go", 0,
+                 cur, sec, insp, alt)
+        /\ UNCHANGED <<cid, memo, kf, obs, result>>
+
+APassRet ==      \* rec, ref, with_ctx, map_ctx: the child's result is the result
+  /\ Resuming({"rec", "ref", "withctx", "mapctx"}, 1)
+  /\ Keep([ret EXCEPT !.fr = NoFrame])
+
+---------------------------------------------------------------------------
+(* context: with_ctx, map_ctx, then_with_ctx, ignore_with_ctx              *)
+
+AWithCtxStart ==
+  /\ Entering({"withctx", "mapctx"})
+  /\ LET f == Top
+         c == IF Op(f.g) = "withctx" THEN f.g[2] ELSE MapFn(f.g[2], f.ctx)
+     IN /\ CallX([f EXCEPT !.pc = 1], f.g[3], f.mode, c, f.env, Append(f.path, 1), "go", 0, cur, sec, insp, alt)
+        /\ UNCHANGED <<cid, memo, kf, obs, result>>
+
+AThenCtxStart ==
+  /\ Entering({"thenctx", "ignctx"})
+  /\ LET f == Top IN Call([f EXCEPT !.pc = 1], 1, f.g[2], "E", cur, sec, insp, alt)
+
+AThenCtxARet ==
+  /\ Resuming({"thenctx", "ignctx"}, 1)
+  /\ LET f == Top IN
+     IF ~ret.ok THEN Keep(ErrRet)
+     ELSE /\ CallX([f EXCEPT !.pc = 2, !.acc = <<ret.val>>], f.g[3], f.mode, ret.val, f.env, Append(f.path, 2), "go", 0,
+                   cur, sec, insp, alt)
+          /\ UNCHANGED <<cid, memo, kf, obs, result>>
+
+AThenCtxBRet ==
+  /\ Resuming({"thenctx", "ignctx"}, 2)
+  /\ LET f == Top IN
+     IF ~ret.ok THEN Keep(ErrRet)
+     ELSE IF Op(f.g) = "thenctx" THEN Keep(OkRet(MV(f.mode, VP(f.acc[1], ret.val))))
+     ELSE Keep(OkRet(ret.val))
+
+(* with_state(s): the sub-parser runs on a fresh clone of `s`; the outer   *)
+(* state does not see the tokens consumed inside and is left untouched     *)
+AWithStateStart ==
+  /\ Entering({"withstate"})
+  /\ LET f == Top IN Call([f EXCEPT !.pc = 1, !.n = insp], 1, f.g[2], f.mode, cur, sec, 0, alt)
+
+AWithStateRet ==
+  /\ Resuming({"withstate"}, 1)
+  /\ Return([ret EXCEPT !.fr = NoFrame], cur, sec, Top.n, alt)
+
 ---------------------------------------------------------------------------
 (* Top level: Parser::parse / Parser::check (src/lib.rs:356-427)           *)
 
@@ -614,12 +833,6 @@ Finish ==
                    panic |-> FALSE,
                    insp |-> insp]
   /\ st' = [st EXCEPT !.done = TRUE]
-  /\ UNCHANGED <<cid, stack, ret, cur, alt, sec, insp, memo, kf, obs>>
-
-(* a "can't fail" unwrap hit: the real code panics; the parse ends here *)
-Panic ==
-  /\ result' = [ok |-> FALSE, out |-> VU, errs |-> <<>>, panic |-> TRUE, insp |-> insp]
-  /\ st' = [st EXCEPT !.done = TRUE, !.panicked = TRUE]
   /\ UNCHANGED <<cid, stack, ret, cur, alt, sec, insp, memo, kf, obs>>
 
 NoResult == [ok |-> FALSE, out |-> VU, errs |-> <<>>, panic |-> FALSE, insp |-> 0]
@@ -645,5 +858,10 @@ CoreNext ==
   \/ ASepNext \/ ASepLeadRet \/ ASepSepRet \/ ASepItemRet
   \/ AConsumerStart \/ ARunFastRet \/ ACollectRet \/ AExactRet
   \/ AFoldlStart \/ AFoldlARet \/ AFoldlItRet \/ AFoldrItRet \/ AFoldrBRet
+  \/ ARecoverStart \/ ARecoverARet \/ ARecoverViaRet \/ ASkipUntilUntilRet \/ ASkipUntilSkipRet
+  \/ ARetryUntilRet \/ ARetrySkipRet \/ ARetryRetryRet
+  \/ ALabelStart \/ ALabelRet \/ AMapErrRet
+  \/ AMemoStart \/ AMemoRet \/ ARecStart \/ ARefStart \/ APassRet
+  \/ AWithCtxStart \/ AThenCtxStart \/ AThenCtxARet \/ AThenCtxBRet \/ AWithStateStart \/ AWithStateRet
   \/ Finish
 =============================================================================
